@@ -158,6 +158,18 @@ def gen_case(rng, tier, k):
                 "fail": rng.randrange(0, 12) if rng.random() < 0.12
                 else None}
         mods[f"m{i}"] = module_ir(rng, i, f"m{i}", deps[i], opts)
+    # a second module whose name differs from an existing one only in case:
+    # a different module with its own state (the store is case sensitive)
+    if rng.random() < 0.35:
+        j = rng.randrange(1, n + 1)
+        up = f"M{j}"
+        mods[up] = [["mark", "LOAD " + up], ["def", f"c{j}_a", -7],
+                    ["def", "upper_only", 1], ["def", "_st", 100],
+                    ["deffn", f"bump{j}", [],
+                     [["set", "_st", ["op", "+", ["v", "_st"], 1]],
+                      ["ret", ["v", "_st"]]]],
+                    ["deffn", f"peek{j}", [], [["ret", ["v", "_st"]]]]]
+        ids = ids + [up]
     files = {}
     for i, mid in enumerate(ids):
         if loc == "home":
@@ -189,7 +201,7 @@ def gen_case(rng, tier, k):
     nfn = [0]
 
     def idx_of(mid):
-        return int(mid[1:]) if mid[1:].isdigit() else 0
+        return int(mid[1:]) if mid[1:].isdigit() and mid[0] == "m" else 0
 
     def gen_require(scope, m):
         mid = rng.choice(allmods)
@@ -210,6 +222,9 @@ def gen_case(rng, tier, k):
         extra = None
         if form == "as":
             extra = "al" + rng.choice("123")
+            if rng.random() < 0.3:
+                # the alias is the name of another real module
+                extra = rng.choice(ids)
         elif form == "imp":
             cands = [f"c{i}_a", f"bump{i}", f"peek{i}", f"f{i}_x",
                      f"_p{i}", f"_h{i}", "_st", "nosuch", f"tail{i}",
